@@ -8,7 +8,10 @@ stdin : {"cases": [{"idx": [names], "cols": [[cname, [ints]], ...], "queries": [
         sel = ["pos", i] | ["poslist", [i..]] | ["mask", [bool..]] | ["str", text]
             | ["names", [text..]] | ["span", a, b] (a, b: null | text | int)
             | ["range", lo, hi, col] | ["slice", lo, hi] | ["none"]
-stdout: {"obs": [[{rows, names, indices, mask, chain}..]..], "ref": [[..]..], "fail": [[[msg..]..]..]}
+        optional per case  "history": [h, ...] run on ONE further table object:
+        h = {"sel": q} | {"setcell": [i, value]} | {"setcellname": [text, value]} | {"setidx": [names]}
+stdout: {"obs": [[{rows, names, indices, mask, chain}..]..], "ref": [[..]..], "fail": [[[msg..]..]..],
+         "hobs": [[..]..], "href": [[..]..], "hfail": [[[msg..]..]..]}
 """
 import sys, json, re
 import numpy as np
@@ -258,13 +261,78 @@ def run_case(case):
     return obs, refs, fails
 
 
+def run_history(case):
+    """selections interleaved with edits of the index column on one table
+    object; the reference keeps its own copy of the column"""
+    t = mk_table(case)
+    names = list(case["idx"])
+    cols = {k: list(v) for k, v in case["cols"]}
+    obs, refs, fails = [], [], []
+    for h in case.get("history", []):
+        n = len(names)
+        if "sel" in h:
+            o = observe(t, h["sel"])
+            r = ref_query(names, cols, h["sel"])
+            obs.append(o); refs.append(r); fails.append(judge(names, o, r, h["sel"]))
+            continue
+        # the edit, on the reference column
+        want, new = "ok", None
+        if "setcell" in h:
+            i, v = h["setcell"]
+            w = wrap(n, [i])
+            if w is None:
+                want = ["err", "IndexError"]
+            else:
+                new = list(names); new[w[0]] = v
+        elif "setcellname" in h:
+            text, v = h["setcellname"]
+            p = ref_name(names, text)
+            if p is None:
+                want = ["err", "KeyError"]
+            else:
+                w = wrap(n, [p])
+                if w is None:
+                    want = ["err", "IndexError"]
+                else:
+                    new = list(names); new[w[0]] = v
+        else:
+            vals = h["setidx"][0]
+            if len(vals) == n:
+                new = list(vals)
+            else:
+                want = None      # numpy broadcasting rules: no verdict
+        try:
+            if "setcell" in h:
+                t["name", int(h["setcell"][0])] = h["setcell"][1]
+            elif "setcellname" in h:
+                t["name", h["setcellname"][0]] = h["setcellname"][1]
+            elif h["setidx"][1] == "attr":
+                t.name = np.array(h["setidx"][0], dtype=object)
+            else:
+                t["name"] = np.array(h["setidx"][0], dtype=object)
+            got = "ok"
+        except Exception as e:  # noqa
+            got = exc(e)
+        f = []
+        if want is not None and got != want:
+            f.append(f"index-column edit {h}: expected {want}, got {got}")
+        if new is not None and got == "ok":
+            names = new
+        if [str(x) for x in t._data["name"]] != names and want is not None:
+            f.append(f"after {h} the index column is {[str(x) for x in t._data['name']]}, expected {names}")
+        obs.append({"set": got}); refs.append(None); fails.append(f)
+    return obs, refs, fails
+
+
 def main():
     inp = json.load(sys.stdin)
-    O, R, F = [], [], []
+    O, R, F, HO, HR, HF = [], [], [], [], [], []
     for case in inp["cases"]:
         o, r, f = run_case(case)
         O.append(o); R.append(r); F.append(f)
-    json.dump({"obs": O, "ref": R, "fail": F}, sys.stdout)
+        ho, hr, hf = run_history(case)
+        HO.append(ho); HR.append(hr); HF.append(hf)
+    json.dump({"obs": O, "ref": R, "fail": F, "hobs": HO, "href": HR, "hfail": HF}, sys.stdout)
 
 
 if __name__ == "__main__":
